@@ -50,6 +50,7 @@ InitState ==
       retry |-> <<>>,                         \* payloads (indexes into pay) awaiting the retry timer
       attempts |-> 0, ridx |-> 0, stopped |-> FALSE,
       kn |-> {},                              \* environment: topics whose metadata the client holds
+      armedFail |-> FALSE,                    \* environment: the next produce call fails at once
       pa |-> [i \in Sids |-> 0] ]             \* environment: the partition the partitioner picks for each send
 
 Ev(a, sid, x) == [a |-> a, sid |-> sid, x |-> x, res |-> <<>>]
@@ -74,7 +75,13 @@ Lookup(st, sid, e) ==
     ELSE Act([s |-> [s EXCEPT !.waiting = @ \cup {sid}, !.wtimer = @ \ {sid}], out |-> st.out], <<"meta", TopicOf[sid]>>)
 
 \* --- all lookups resolved: build payloads and send (or finish if nothing is left)
-RECURSIVE SendBatch(_, _)
+RECURSIVE SendBatch(_, _), HandleResult(_, _)
+\* a produce call was just made.  When the environment armed it, the client fails the call at once (the Deferred it
+\* returns has already failed): the outcome is handled inside the same event.
+FailedAtOnce == [kind |-> "kafka", codes |-> <<>>]
+AfterProduce(st, e) ==
+    IF st.s.armedFail THEN HandleResult([s |-> [st.s EXCEPT !.armedFail = FALSE], out |-> st.out], [e EXCEPT !.res = FailedAtOnce])
+    ELSE st
 Complete(st, e) ==
     \* _complete_batch_send then _check_send_batch
     LET s1 == [st.s EXCEPT !.active = FALSE, !.phase = "idle", !.attempts = 0, !.ridx = 0, !.reqs = <<>>, !.pay = <<>>,
@@ -94,7 +101,7 @@ SendRequests(st, e) ==
         pay == [k \in DOMAIN firsts |-> <<TopicOf[firsts[k]], s.part[firsts[k]], SelectSeq(good, LAMBDA j : key(j) = key(firsts[k]))>>]
         x1 == FireAll(st, failed, "fail")
     IN IF pay = <<>> THEN Complete(x1, e)
-       ELSE Act([s |-> [x1.s EXCEPT !.pay = pay, !.phase = "sent", !.attempts = @ + 1], out |-> x1.out], <<"produce", pay>>)
+       ELSE AfterProduce(Act([s |-> [x1.s EXCEPT !.pay = pay, !.phase = "sent", !.attempts = @ + 1], out |-> x1.out], <<"produce", pay>>), e)
 
 SendBatch(st, e) ==
     LET s == st.s IN
@@ -131,7 +138,10 @@ HandleResult(st, e) ==
              \* failed-to-send payloads first, then those answered with an error code, as the producer lists them
              notSent == SelectSeq(badIdx, LAMBDA k : codes[k] < 0)
              errored == SelectSeq(badIdx, LAMBDA k : codes[k] > 0)
-             bad == [k \in DOMAIN (notSent \o errored) |-> idx[(notSent \o errored)[k]]]
+             \* (when the request failed as a whole the producer lists its payloads in creation order)
+             Sorted(S) == LET RECURSIVE Srt(_) Srt(T) == IF T = {} THEN <<>> ELSE LET m == CHOOSE x \in T : \A y \in T : x <= y IN <<m>> \o Srt(T \ {m}) IN Srt(S)
+             bad == IF r.kind = "kafka" THEN Sorted(SeqToSet(idx))
+                    ELSE [k \in DOMAIN (notSent \o errored) |-> idx[(notSent \o errored)[k]]]
              x1 == FireAll(st, sidsOf([k \in DOMAIN okIdx |-> idx[okIdx[k]]]), "ok")
          IN IF bad = <<>> THEN Complete(x1, e)
             ELSE IF x1.s.attempts >= MaxAttempts
@@ -147,6 +157,7 @@ Possible(s, e) ==
     CASE e.a = "Send"        -> e.sid \in Sids /\ s.st[e.sid] = "new" /\ ~s.stopped     \* (a stopped producer is not sent to)
       [] e.a = "Cancel"      -> e.sid \in Sids /\ s.st[e.sid] \in {"queued", "batch"}
       [] e.a = "Stop"        -> ~s.stopped
+      [] e.a = "ArmFail"     -> ~s.armedFail /\ ~s.stopped
       [] e.a = "Tick"        -> BatchT # 0 /\ ~s.stopped
       [] e.a = "MetaDone"    -> e.sid \in s.waiting \ s.wtimer /\ s.phase = "part"
       [] e.a = "MetaRetry"   -> e.sid \in s.waiting \cap s.wtimer /\ s.phase = "part"
@@ -187,9 +198,10 @@ Step(s, e) ==
                       ELSE IF \E k \in DOMAIN idx : e.res.codes[k] < 0 THEN {}
                       ELSE s.kn \ {s.pay[idx[k]][1] : k \in {j \in DOMAIN idx : e.res.codes[j] \in {3, 6}}}
            IN HandleResult([s |-> [s EXCEPT !.kn = kn2], out |-> <<>>], e)
+      [] e.a = "ArmFail" -> [s |-> [s EXCEPT !.armedFail = TRUE], out |-> <<>>]
       [] e.a = "RetryFire" ->
            LET pl == [k \in DOMAIN s.retry |-> s.pay[s.retry[k]]] IN
-           Act([s |-> [s EXCEPT !.phase = "sent", !.attempts = @ + 1], out |-> <<>>], <<"produce", pl>>)
+           AfterProduce(Act([s |-> [s EXCEPT !.phase = "sent", !.attempts = @ + 1], out |-> <<>>], <<"produce", pl>>), e)
       [] e.a = "Stop" ->
            \* The batch in flight is cancelled first.  If its produce request was with the client, the client reports
            \* what it has (e.res): partitions already acknowledged succeed -- truthfully --, nothing is retried.
@@ -227,7 +239,9 @@ UpdHist(hh, pre, e, r) ==
          afterStop |-> hh.afterStop \/ e.a = "Stop",
          \* produce requests issued for the batch now in flight
          batchAttempts |-> IF ~r.s.active THEN 0
-                           ELSE IF r.s.reqs # pre.reqs THEN (IF calls # <<>> THEN 1 ELSE 0)
+                           \* (a new batch began in this event: only the calls that carry its sends count for it)
+                           ELSE IF r.s.reqs # pre.reqs
+                           THEN Len(SelectSeq(calls, LAMBDA c : \A k \in DOMAIN c[2] : \A i \in SeqToSet(c[2][k][3]) : i \in SeqToSet(r.s.reqs)))
                            ELSE hh.batchAttempts + Len(calls),
          delays |-> hh.delays ]
 
@@ -241,7 +255,7 @@ Outcomes(st) ==
 EvSend == {[a |-> "Send", sid |-> i, x |-> p, res |-> <<>>] : i \in Sids, p \in 0..1}
 EvInt  == {[a |-> a, sid |-> i, x |-> 0, res |-> <<>>] : a \in {"Cancel", "MetaRetry"}, i \in Sids}
           \cup {[a |-> "MetaDone", sid |-> i, x |-> x, res |-> <<>>] : i \in Sids, x \in {0, 1}}
-          \cup {[a |-> a, sid |-> 0, x |-> 0, res |-> <<>>] : a \in {"Tick", "RetryFire", "Stop"}}
+          \cup {[a |-> a, sid |-> 0, x |-> 0, res |-> <<>>] : a \in {"Tick", "RetryFire", "Stop", "ArmFail"}}
 EvRes(st) == {[a |-> "ProduceDone", sid |-> 0, x |-> 0, res |-> r] : r \in Outcomes(st)}
 Fire(e) ==
     /\ Possible(s, e)
